@@ -893,6 +893,7 @@ class SyncObj(object):
             newEntries = message.get('entries', [])
             serialized = message.get('serialized', None)
             self.__leaderCommitIndex = leaderCommitIndex = message['commit_index']
+            logMatchesLeader = False
 
             # Regular append entries
             if 'prevLogIdx' in message:
@@ -946,14 +947,17 @@ class SyncObj(object):
                     nextNodeIdx = newEntries[-1][1] + 1
 
                 self.__sendNextNodeIdx(node, nextNodeIdx=nextNodeIdx, success=True)
+                logMatchesLeader = True
 
             # Install snapshot
             elif serialized is not None:
                 if self.__serializer.setTransmissionData(serialized):
                     self.__loadDumpFile(clearJournal=True)
                     self.__sendNextNodeIdx(node, success=True)
+                    logMatchesLeader = True
 
-            if leaderCommitIndex > self.__raftCommitIndex:
+            # The commit index may only cover entries that are known to match the leader's log
+            if logMatchesLeader and leaderCommitIndex > self.__raftCommitIndex:
                 self.__raftCommitIndex = min(leaderCommitIndex, self.__getCurrentLogIndex())
 
             self.__raftLog.setRaftCommitIndex(self.__raftCommitIndex)
